@@ -153,7 +153,7 @@ def main(argv=None):
     known = [k for k in load_known() if k.get("property") == prop and k.get("status", "open") == "open"]
     keys = [k for k, c in REG.contracts.items() if prop in c.props and c.verify and (not a.only or a.only in k)]
     assumed = [k for k, c in REG.contracts.items() if not c.verify]
-    if not keys and not [r for r in REG.writer_rules if r["prop"] == prop] and not [r for r in REG.native if r["prop"] == prop]:
+    if not keys and not [r for r in REG.writer_rules + REG.native + REG.scans if r["prop"] == prop]:
         print(f"CHECKER-ERROR no functions under contract for {prop}")
         return 3
     thorough = a.tier == "thorough"
@@ -191,6 +191,14 @@ def main(argv=None):
                                           "model": doc["counterexample"], "replay": {"built": True, "reproduced": True,
                                                                                     "detail": "found by running the real functions; rerun " + nb["script"]}}]
                                         if doc.get("counterexample") else []), "secs": round(time.time() - t1, 2), "bounded": nb["bound"]})
+    for sc in REG.scans:
+        if sc["prop"] != prop or a.only:
+            continue
+        t1 = time.time()
+        obs = sc["fn"]()
+        results.append({"key": f"scan::{sc['name']}", "file": "src/primaite (whole tree)", "qualname": f"<scan {sc['name']}>", "sha256": "",
+                        "lines": [0, 0], "paths": 0, "error": None if obs else "scan produced no obligations", "obligations": obs, "log": [],
+                        "refutations": [], "secs": round(time.time() - t1, 2)})
     from pyvc.frames import check_writers
     for rule in REG.writer_rules:
         if rule["prop"] == prop and not a.only:
@@ -198,6 +206,11 @@ def main(argv=None):
             results.append({"key": f"writers::{rule['attr']}", "file": "src/primaite (whole tree)", "qualname": f"<writers of .{rule['attr']}>",
                             "sha256": "", "lines": [0, 0], "paths": 0, "error": None, "obligations": obs, "log": [],
                             "refutations": [], "secs": 0.0})
+    for r_ in results:
+        for o in r_["obligations"]:
+            for kf in known:
+                if o["name"].startswith(kf["obligation"]) and o["status"] != "discharged":
+                    o["known"] = kf["id"] + ": " + kf["what"]
     return report(prop, a.tier, seed, results, known, assumed, t0, a.v)
 
 
@@ -245,7 +258,7 @@ def report(prop, tier, seed, results, known, assumed, t0, verbose):
         # known findings: obligations marked known=<id>
         for o in r["obligations"]:
             if o.get("known") and o["status"] != "discharged":
-                line = f"KNOWN-FINDING: property={prop} {o['known']} {o['name']}"
+                line = f"KNOWN-FINDING: property={prop} {o['known']} [{o['name']}]"
                 if line not in known_lines:
                     known_lines.append(line)
         failing = {}
